@@ -131,7 +131,13 @@ def upload(n, style, last, odkind, how, seg_len=7, second=False):
         width = None
     else:
         od = C.odmod().ObjectDictionary()
-        if odkind.startswith("num"):
+        if odkind == "bool":
+            width = 1             # BOOLEAN is a fixed-size (one byte) entry as well
+            od.add_object(C.mkvar("flag", 0x2000, 0, 0x01))
+        elif odkind == "real4" or odkind == "real8":
+            width = int(odkind[4:])
+            od.add_object(C.mkvar("real", 0x2000, 0, 0x08 if width == 4 else 0x11))
+        elif odkind.startswith("num"):
             width = int(odkind[3:])
             od.add_object(C.mkvar("num", 0x2000, 0, NUM_BY_WIDTH[width]))
         else:
@@ -560,8 +566,8 @@ def jobs(tier):
                     continue
                 out.append(dict(func="upload", params=dict(n=n, style=style, last=last, odkind="none", how=how),
                                 weight=n + 1))
-            for odkind in ("num1", "num2", "num3", "num4", "num8", "str", "dom"):
-                if n > 12 and odkind.startswith("num"):
+            for odkind in ("num1", "num2", "num3", "num4", "num8", "bool", "real4", "real8", "str", "dom"):
+                if n > 12 and odkind not in ("str", "dom"):
                     continue
                 out.append(dict(func="upload", params=dict(n=n, style=style, last=last, odkind=odkind, how="api"),
                                 weight=n + 1))
